@@ -16,7 +16,7 @@ RULE = ("binImgs: shapes (..., a*n, b*n) with 0-2 leading axes, n in 1..6, float
         "return modes consistent, reported diameter brackets the crossing, Gaussian trend. Non-trivial: binning n>=2 on a "
         "stack; non-square target or order 5; off-centre energy. Distinct = canonical JSON.")
 ASSUMPTIONS = ["zoom output[i, j] is the spline evaluated at (linspace(0,n-1,kx)[i], linspace(0,n-1,ky)[j]) - first requested size = first axis",
-               "narrow integer dtypes are excluded from binning (overflow is NumPy's documented wrap-around)",
+               "binning of integer / boolean frames is judged against the sums as numbers (int64), not modulo the container's range",
                "encircled-energy Gaussian comparison is a trend check with bound 0.12/sigma"]
 
 
@@ -38,8 +38,16 @@ def bin_cases(draw):
     a, b = draw(st.integers(1, 5)), draw(st.integers(1, 5))
     lead = tuple(draw(st.sampled_from([(), (), (1,), (3,), (2, 2)])))
     shape = lead + (a * n, b * n)
-    dt = draw(st.sampled_from(["float64", "float32", "int64", "int32", "complex128"]))
-    if dt.startswith("int"):
+    dt = draw(st.sampled_from(["float64", "float32", "int64", "int32", "complex128", "uint8", "uint16", "int16", "bool"]))
+    if dt == "uint8":
+        data = draw(gen.int_array(shape, 0, 255, dtype=dt))                # raw 8-bit frames
+    elif dt == "uint16":
+        data = draw(gen.int_array(shape, 0, 4095, dtype=dt))               # 12-bit data in a 16-bit container
+    elif dt == "int16":
+        data = draw(gen.int_array(shape, 0, 4095, dtype=dt))
+    elif dt == "bool":
+        data = draw(gen.int_array(shape, 0, 1, dtype="int64")).astype(bool)  # a pupil mask: binning counts the lit pixels
+    elif dt.startswith("int"):
         data = draw(gen.int_array(shape, -1000, 1000, dtype=dt))
     elif dt == "complex128":
         data = draw(gen.complex_array(shape, kind="dyadic"))
@@ -56,10 +64,15 @@ def bin_body(ctx, case):
     out = I().binImgs(data, nn)
     ctx.equal(data, d0, "binImgs modified its input")
     a, b = data.shape[-2] // n, data.shape[-1] // n
-    want = data.reshape(data.shape[:-2] + (a, n, b, n)).sum(axis=(-3, -1))
+    wide = data.astype(np.int64) if data.dtype.kind in "uib" else data      # the sums as numbers, not modulo the container's range
+    want = wide.reshape(data.shape[:-2] + (a, n, b, n)).sum(axis=(-3, -1))
     ctx.require(out.shape == want.shape, "binImgs shape %s, expected %s" % (out.shape, want.shape))
-    ctx.equal(out, want.astype(out.dtype), "binImgs == n x n block sums")       # dyadic/int content: sums are exact
-    ctx.equal(out.sum(axis=(-2, -1)), data.sum(axis=(-2, -1)).astype(out.dtype), "binImgs preserves total flux per image")
+    if data.dtype.kind in "uib":
+        ctx.equal(np.asarray(out).astype(np.int64), want, "binImgs(%s image) == n x n block sums" % data.dtype)
+        ctx.equal(np.asarray(out).astype(np.int64).sum(axis=(-2, -1)), wide.sum(axis=(-2, -1)), "binImgs(%s image) preserves total flux per image" % data.dtype)
+    else:
+        ctx.equal(out, want.astype(out.dtype), "binImgs == n x n block sums")       # dyadic content: sums are exact
+        ctx.equal(out.sum(axis=(-2, -1)), data.sum(axis=(-2, -1)).astype(out.dtype), "binImgs preserves total flux per image")
 
 
 # ------------------------------------------------------------------ zoom
@@ -91,7 +104,8 @@ def zoom_cases(draw):
     cxy = draw(gen.dyadic(-1, 1, 4))
     return {"n": n, "ny": ny, "order": order, "target": target, "tk": tk, "cx": cx, "cy": cy, "cxy": cxy,
             "noise": draw(gen.float_array((n, ny), kind="dense")), "entry": draw(st.sampled_from(["zoom", "zoom_rbs"])),
-            "complex": draw(st.booleans()), "single": draw(st.sampled_from([False, False, True]))}
+            "complex": draw(st.booleans()), "single": draw(st.sampled_from([False, False, True])),
+            "cdtype": draw(st.sampled_from(["native", "native", "native", "byteswapped", "clongdouble"]))}
 
 
 def poly(case, X, Y):
@@ -119,6 +133,10 @@ def zoom_body(ctx, case):
     single = case.get("single", False)
     if single:
         arr = arr.astype(np.complex64 if case["complex"] else np.float32)     # dyadic coefficients: exactly representable
+    if case["complex"] and case.get("cdtype", "native") != "native":
+        # the same complex numbers in a non-native byte order (memory-mapped / big-endian files) or in extended precision
+        arr = arr.astype(arr.dtype.newbyteorder()) if case["cdtype"] == "byteswapped" else arr.astype(np.clongdouble)
+        ctx.classes["complex_" + case["cdtype"]] += 1
     tolp = 1e-9 if not single else 2e-5
     a0 = arr.copy()
     out = f(arr, target, order)
@@ -248,6 +266,24 @@ def ee_body(ctx, case):
         ctx.classes["curve_never_reaches_fraction_in_sampled_range"] += 1      # the statement is only about the crossing
     else:
         ctx.require(lo - 1e-12 <= d <= hi + 1e-12, "reported diameter %r is not one of the abscissae bracketing the crossing of fraction %r: [%r, %r]" % (d, f, lo, hi))
+    # independent of the returned curve: the smallest centred pixel disc holding the fraction, as an area-equivalent diameter
+    # (smooth images only, where the 20-node interpolation of the code is accurate to a fraction of a pixel)
+    if case["kind"] in ("rand", "gauss"):
+        cc = np.arange(n) + 0.5 - n / 2.0
+        r2 = (cc[None, :] ** 2 + cc[:, None] ** 2).ravel()
+        order = np.argsort(r2, kind="stable")
+        cum = np.cumsum(data.ravel()[order]) / float(data.sum())
+        # complete rings only: a disc must contain every pixel at the same distance
+        r2s = r2[order]
+        last_of_ring = np.nonzero(np.append(np.diff(r2s) > 0, True))[0]
+        ring = last_of_ring[np.searchsorted(cum[last_of_ring], f)] if cum[last_of_ring][-1] >= f else None
+        d_true = math.sqrt(4.0 * (ring + 1) / math.pi) if ring is not None else 0.0
+        # frames of at least 16 px and discs of at least 6 px: below that the step-like true curve and the code's linear
+        # interpolation from (0, 0) legitimately differ by more than the tolerance
+        if ring is not None and n >= 16 and d_true >= 6.0 and math.sqrt(r2s[ring]) <= n / 2.0 - 1.0:
+            ctx.classes["diameter_oracle_applied" + ("_beyond_half_frame" if d_true > n / 2.0 else "")] += 1
+            ctx.residual("reported EE diameter vs smallest disc holding the fraction [px]", abs(d - d_true), 1.5 + 0.02 * n)
+            ctx.require(abs(d - d_true) <= 1.5 + 0.02 * n, "encircled_energy(fraction=%.3f) reports diameter %.2f px; the smallest centred disc holding that fraction of the energy has (area-equivalent) diameter %.2f px, inside the %d px frame" % (f, d, d_true, n))
     # normalised curve: invariant under multiplication of the image by a positive constant
     for k in (case.get("scale", 3.0), 1.0 / 1024):
         xs, ys = P().encircled_energy(data * k, fraction=f, eeDiameter=False)
